@@ -77,8 +77,10 @@ let run_case (line : string) : string =
         | RespT.Integer _ when cls = "strother" && stok <> "d" -> "I *"
         | _ -> resp_to_string r) cmds in
     let dump = L.sort compare (L.map (fun (k, v) ->
-        let tok = if Hashtbl.mem verbatim v then "r:" ^ hex v
-          else match decompress v with Some d -> "c:" ^ hex d | None -> "x" in
+        let tok = if stok = "d" then "r:" ^ hex v
+          else match decompress v with
+            | Some d -> "c:" ^ hex d
+            | None -> if Hashtbl.mem verbatim v then "r:" ^ hex v else "x" in
         (* sort like the BTreeMap of the harness: by key bytes *)
         (bytes_of_nlist k, hex k ^ "=" ^ tok)) !st) in
     "run " ^ S.concat " ; " outs ^ " | " ^ S.concat " " (L.map snd dump)
